@@ -1,1 +1,2 @@
 //! Circuit layer checks (C04–C09, C15, C16, C18–C20): shared engines.
+pub mod e2;
